@@ -167,6 +167,9 @@ func writeTok(w *bytes.Buffer, t tok, i int) {
 	switch t.t {
 	case "arr":
 		cbg.WriteMajorTypeHeader(w, cbg.MajArray, uint64(t.n))
+		if t.c == "full" { // every announced element is there: n empty byte strings
+			w.Write(bytes.Repeat([]byte{0x40}, t.n))
+		}
 	case "cid":
 		cbg.WriteCid(w, theCid(i))
 	case "int":
@@ -218,6 +221,12 @@ func mutate(ts []tok, k string, i int) []tok {
 		default:
 			out[i-1] = tok{t: "int"}
 		}
+	case "hugecount":
+		out[i-1] = tok{t: "arr", n: cbg.ByteArrayMaxLen}
+	case "fullover":
+		out[2] = tok{t: "arr", n: cbg.MaxLength + 1, c: "full"}
+	case "fullat":
+		out[2] = tok{t: "arr", n: cbg.MaxLength, c: "full"}
 	case "truncate":
 		out = out[:i-1]
 	case "trailing":
